@@ -25,7 +25,7 @@ var resolveCount atomic.Int64
 const resolveBudget = 3000
 
 func init() {
-	stepBudget.Store(200_000)
+	stepBudget.Store(100_000) // 100k validate frames ~ 280 MB of stack: below the 512 MB the runtime can actually grow to
 	f := func(point string) {
 		if g := extraHook.Load(); g != nil {
 			(*g)(point)
